@@ -1,7 +1,8 @@
 (* Contract theorems of Batch.v (HpcSubmitter._make_batch, _submit_batches, group loop).
    All statements are for arbitrary candidate lists and parameters: induction over the lists. *)
-From Coq Require Import List ZArith NArith Bool Arith Lia.
+From Coq Require Import List ZArith NArith Bool Arith Lia Permutation.
 From Jade Require Import Base Batch.
+From Jade.Gen Require Import BatchGen.
 Import ListNotations.
 Open Scope Z_scope.
 
@@ -44,7 +45,7 @@ Qed.
 Lemma try_append_fail_time p b j b' :
   try_append p b j = (b', false) -> g_time p = true /\ b_time b + 60 * jest j > g_max p.
 Proof.
-  unfold try_append. destruct (g_time p && _) eqn:E1.
+  unfold try_append, time_exceeded. destruct (g_time p && _) eqn:E1.
   - intros _. apply andb_true_iff in E1. destruct E1 as [E1 E2]. split; [exact E1|]. lia.
   - destruct (g_time p); intros H; inversion H.
 Qed.
@@ -71,8 +72,8 @@ Record Fin (p : gparams) (avail : list cjob) (s : st) : Prop := {
   f_nodup : NoDup (names (b_jobs (s_batch s)));
   f_closed : closed (b_jobs (s_batch s));
   f_try : blocked_only_if_try p (b_jobs (s_batch s));
-  f_limit : if g_time p then 60 * sum_est (b_jobs (s_batch s)) <= g_max p
-            else (N.of_nat (length (b_jobs (s_batch s))) <= g_size p)%N;
+  f_limit : if g_time p then b_jobs (s_batch s) = [] \/ 60 * sum_est (b_jobs (s_batch s)) <= g_max p
+            else (N.of_nat (length (b_jobs (s_batch s))) <= N.max 1 (g_size p))%N;
   f_blocked : blocked_inv avail s
 }.
 (* what holds while the loops are still running (batch not ready) *)
@@ -80,7 +81,7 @@ Record Run (p : gparams) (avail : list cjob) (s : st) : Prop := {
   r_fin : Fin p avail s;
   r_ready : b_ready (s_batch s) = false;
   r_limit : if g_time p then b_time (s_batch s) = 60 * sum_est (b_jobs (s_batch s))
-            else (N.of_nat (length (b_jobs (s_batch s))) < g_size p)%N
+            else b_jobs (s_batch s) = [] \/ (N.of_nat (length (b_jobs (s_batch s))) < g_size p)%N
 }.
 
 Lemma add_blocked_in j l x : In x (add_blocked j l) -> x = j \/ In x l.
@@ -108,19 +109,21 @@ Proof.
   - destruct (try_append p (s_batch s) j) as [b' ok] eqn:Et.
     pose proof (try_append_jobs _ _ _ _ _ Et) as Hjobs.
     apply is_blocked_false in Eb. destruct Eb as [Eb1 Eb2].
-    destruct ok.
+    destruct ok; cbn iota in Hjobs.
     + (* placed *)
       assert (Hl' : if g_time p then b_time b' = 60 * sum_est (b_jobs b') /\ b_time b' <= g_max p
-                    else (N.of_nat (length (b_jobs b')) <= g_size p)%N /\
+                    else (N.of_nat (length (b_jobs b')) <= N.max 1 (g_size p))%N /\
                          (b_ready b' = false -> (N.of_nat (length (b_jobs b')) < g_size p)%N)).
-      { revert Et. unfold try_append. destruct (g_time p) eqn:Etime; cbn [andb].
-        - destruct (b_time (s_batch s) + 60 * jest j >? g_max p) eqn:Ecmp; intros H;
+      { revert Et Hrl. unfold try_append, time_exceeded, size_reached. destruct (g_time p) eqn:Etime; cbn [andb].
+        - destruct (b_time (s_batch s) + 60 * jest j >? g_max p) eqn:Ecmp; intros H Hrl;
             [apply (f_equal snd) in H; discriminate H|].
           apply (f_equal fst) in H. cbn [fst] in H. subst b'.
           rewrite Z.gtb_ltb in Ecmp. apply Z.ltb_ge in Ecmp.
           cbn [b_jobs b_time]. rewrite sum_est_app. change (sum_est [j]) with (jest j + 0). split; lia.
-        - intros H. apply (f_equal fst) in H. cbn [fst] in H. subst b'. cbn [b_jobs b_ready]. rewrite app_length. cbn [length].
-          rewrite Hr. cbn [orb]. split; [lia|]. intros Hle. apply N.leb_gt in Hle. lia. }
+        - intros H Hrl. apply (f_equal fst) in H. cbn [fst] in H. subst b'. cbn [b_jobs b_ready]. rewrite app_length. cbn [length].
+          rewrite Hr. cbn [orb]. split.
+          + destruct Hrl as [Hrl|Hrl]; [rewrite Hrl; cbn [length]; lia|lia].
+          + intros Hle. apply N.leb_gt in Hle. lia. }
       assert (F : Fin p avail {| s_batch := b'; s_blocked := del_blocked (jname j) (s_blocked s); s_hi := Z.max (s_hi s) i |}).
       { constructor; cbn [s_batch s_blocked]; rewrite ?Hjobs.
         - intros x Hx. apply in_app_iff in Hx. destruct Hx as [Hx|[<-|[]]]; auto.
@@ -129,17 +132,17 @@ Proof.
         - intros x Hx d Hd. rewrite names_app. apply in_app_iff. apply in_app_iff in Hx.
           destruct Hx as [Hx|[<-|[]]]; left; [eapply Hc; eauto|auto].
         - intros x Hx Hne. apply in_app_iff in Hx. destruct Hx as [Hx|[<-|[]]]; [eapply Ht; eauto|auto].
-        - destruct (g_time p); [lia|tauto].
+        - rewrite <- Hjobs. revert Hl'. destruct (g_time p); intros Hl'; [right; lia|tauto].
         - split.
           + intros x Hx. apply del_blocked_in in Hx. apply Hb1. tauto.
           + intros x Hx. apply del_blocked_in in Hx. destruct Hx as [Hx Hne]. destruct (Hb2 x Hx) as [H1 H2].
-            split; [|exact H2]. rewrite names_app, in_app_iff. cbn. intros [H|[H|[]]]; [tauto|congruence]. }
+            split; [|exact H2]. cbn [s_batch]. rewrite Hjobs, names_app, in_app_iff. cbn. intros [H|[H|[]]]; [tauto|congruence]. }
       split; [exact F|]. intros Hs. unfold stop in Hs. cbn [s_batch] in Hs. apply orb_false_iff in Hs. destruct Hs as [Hs _].
-      constructor; [exact F|exact Hs|]. cbn [s_batch]. destruct (g_time p); [tauto|]. destruct Hl' as [_ Hl']. auto.
+      constructor; [exact F|exact Hs|]. cbn [s_batch]. destruct (g_time p); [tauto|]. destruct Hl' as [_ Hl']. right. auto.
     + (* does not fit *)
       assert (F : Fin p avail {| s_batch := b'; s_blocked := s_blocked s;
                                  s_hi := if i =? Z.max (s_hi s) i then Z.max (s_hi s) i - 1 else Z.max (s_hi s) i |}).
-      { constructor; cbn [s_batch s_blocked]; rewrite ?Hjobs; try assumption. split; [exact Hb1|]. rewrite Hjobs. exact Hb2. }
+      { constructor; cbn [s_batch s_blocked]; rewrite ?Hjobs; try assumption. split; [exact Hb1|]. cbn [s_batch s_blocked]. rewrite Hjobs. exact Hb2. }
       split; [exact F|]. intros Hs. unfold stop in Hs. cbn [s_batch] in Hs.
       rewrite (try_append_fail_ready _ _ _ _ Et) in Hs. discriminate Hs.
 Qed.
@@ -173,17 +176,17 @@ Proof.
 Qed.
 
 Definition s0 : st := {| s_batch := empty_batch; s_blocked := []; s_hi := -1 |}.
-Lemma Run_s0 p avail : params_ok p -> Run p avail s0.
+Lemma Run_s0 p avail : Run p avail s0.
 Proof.
-  unfold params_ok. intros Hp. constructor; [constructor|..]; cbn.
+  constructor; [constructor|..]; cbn.
   - intros x [].
   - constructor.
   - intros j [].
   - intros j [].
-  - destruct (g_time p); lia.
+  - destruct (g_time p); [left; reflexivity|lia].
   - split; [intros x []|intros x []].
   - reflexivity.
-  - destruct (g_time p); lia.
+  - destruct (g_time p); [reflexivity|left; reflexivity].
 Qed.
 
 (* ---------- position of the cursor: the not-checked jobs are a suffix, the batch lies before it ---------- *)
@@ -222,27 +225,28 @@ Proof.
     + intros _. lia.
   - assert (Ha' : avail = ((pre ++ [j]) ++ l)%list) by (rewrite <- app_assoc; exact Ha).
     assert (Hi' : i + 1 = Z.of_nat (length (pre ++ [j]))) by (rewrite app_length; cbn; lia).
+    assert (Hpre : forall b, incl b pre -> incl b (pre ++ [j])) by (intros b Hb x Hx; apply in_app_iff; left; auto).
     destruct (memN (jname j) (names (b_jobs (s_batch s)))) eqn:Em.
-    + specialize (IH (pre ++ [j])%list (i + 1) _ s' done Ha' Hi').
-      cbn [s_hi s_batch] in IH. destruct IH as [H1 [H2 H3]]; [lia| |exact Hp|].
-      * intros x Hx. apply in_app_iff. left. auto.
-      * split; [exact H1|split; [lia|exact H3]].
+    + assert (Hh' : s_hi {| s_batch := s_batch s; s_blocked := s_blocked s; s_hi := Z.max (s_hi s) i |} = i + 1 - 1) by (cbn [s_hi]; lia).
+      destruct (IH _ _ _ _ _ Ha' Hi' Hh' (Hpre _ Hin) Hp) as [H1 [H2 H3]].
+      split; [exact H1|split; [lia|exact H3]].
     + destruct (visit_spec p i j s) as [[Hj Hv]|[[Hj Hv]|[Hj [Hr [Hv _]]]]].
       * (* blocked *)
-        destruct (stop (length avail) (visit p i j s)) eqn:Es.
-        -- inversion Hp; subst s' done. split; [|split; [lia|discriminate]].
-           exists (pre ++ [j])%list, l. split; [exact Ha'|]. split; [|lia].
-           rewrite Hj. intros x Hx. apply in_app_iff. left. auto.
-        -- specialize (IH (pre ++ [j])%list (i + 1) _ s' done Ha' Hi'). destruct IH as [H1 [H2 H3]]; [lia| |exact Hp|].
-           ++ rewrite Hj. intros x Hx. apply in_app_iff. left. auto.
-           ++ split; [exact H1|split; [lia|exact H3]].
-      * (* placed *)
-        assert (Hin' : incl (b_jobs (s_batch (visit p i j s))) (pre ++ [j])).
-        { rewrite Hj. intros x Hx. apply in_app_iff in Hx. apply in_app_iff. destruct Hx as [Hx|Hx]; [left; auto|right; exact Hx]. }
+        assert (Hin' : incl (b_jobs (s_batch (visit p i j s))) (pre ++ [j])) by (rewrite Hj; auto).
+        assert (Hh' : s_hi (visit p i j s) = i + 1 - 1) by lia.
         destruct (stop (length avail) (visit p i j s)) eqn:Es.
         -- inversion Hp; subst s' done. split; [|split; [lia|discriminate]].
            exists (pre ++ [j])%list, l. split; [exact Ha'|]. split; [exact Hin'|lia].
-        -- specialize (IH (pre ++ [j])%list (i + 1) _ s' done Ha' Hi'). destruct IH as [H1 [H2 H3]]; [lia|exact Hin'|exact Hp|].
+        -- destruct (IH _ _ _ _ _ Ha' Hi' Hh' Hin' Hp) as [H1 [H2 H3]].
+           split; [exact H1|split; [lia|exact H3]].
+      * (* placed *)
+        assert (Hin' : incl (b_jobs (s_batch (visit p i j s))) (pre ++ [j])).
+        { rewrite Hj. intros x Hx. apply in_app_iff in Hx. apply in_app_iff. destruct Hx as [Hx|Hx]; [left; auto|right; exact Hx]. }
+        assert (Hh' : s_hi (visit p i j s) = i + 1 - 1) by lia.
+        destruct (stop (length avail) (visit p i j s)) eqn:Es.
+        -- inversion Hp; subst s' done. split; [|split; [lia|discriminate]].
+           exists (pre ++ [j])%list, l. split; [exact Ha'|]. split; [exact Hin'|lia].
+        -- destruct (IH _ _ _ _ _ Ha' Hi' Hh' Hin' Hp) as [H1 [H2 H3]].
            split; [exact H1|split; [lia|exact H3]].
       * (* does not fit: the cursor steps back onto this job, the loops end *)
         rewrite (stop_ready _ _ Hr) in Hp. inversion Hp; subst s' done.
@@ -268,19 +272,23 @@ Proof.
     assert (Hmax : Z.max (s_hi s) i = s_hi s) by lia.
     assert (Hjin : In j avail) by (rewrite Ha; apply in_app_iff; right; left; reflexivity).
     destruct (memN (jname j) (names (b_jobs (s_batch s)))) eqn:Em.
-    + eapply (IH (pre ++ [j])%list (i + 1)); [exact Ha'|exact Hi'| | |exact Hp]; cbn [s_hi s_batch]; [lia|exact Hin].
+    + assert (Hh' : s_hi {| s_batch := s_batch s; s_blocked := s_blocked s; s_hi := Z.max (s_hi s) i |} = Z.of_nat (length avail) - 1) by (cbn [s_hi]; lia).
+      exact (IH _ _ _ _ _ Ha' Hi' Hh' Hin Hp).
     + apply memN_false in Em.
       destruct (visit_spec p i j s) as [[Hj Hv]|[[Hj Hv]|[Hj [Hr [Hv _]]]]].
       * destruct (stop (length avail) (visit p i j s)) eqn:Es.
         -- inversion Hp; subst s' done. split; [|split; [lia|discriminate]].
            exists avail, []. rewrite app_nil_r. split; [reflexivity|]. split; [rewrite Hj; exact Hin|lia].
-        -- eapply (IH (pre ++ [j])%list (i + 1)); [exact Ha'|exact Hi'|lia| |exact Hp]. rewrite Hj. exact Hin.
+        -- assert (Hh' : s_hi (visit p i j s) = Z.of_nat (length avail) - 1) by lia.
+           assert (Hin' : incl (b_jobs (s_batch (visit p i j s))) avail) by (rewrite Hj; exact Hin).
+           exact (IH _ _ _ _ _ Ha' Hi' Hh' Hin' Hp).
       * assert (Hin' : incl (b_jobs (s_batch (visit p i j s))) avail).
         { rewrite Hj. intros x Hx. apply in_app_iff in Hx. destruct Hx as [Hx|[<-|[]]]; auto. }
         destruct (stop (length avail) (visit p i j s)) eqn:Es.
         -- inversion Hp; subst s' done. split; [|split; [lia|discriminate]].
            exists avail, []. rewrite app_nil_r. split; [reflexivity|]. split; [exact Hin'|lia].
-        -- eapply (IH (pre ++ [j])%list (i + 1)); [exact Ha'|exact Hi'|lia|exact Hin'|exact Hp].
+        -- assert (Hh' : s_hi (visit p i j s) = Z.of_nat (length avail) - 1) by lia.
+           exact (IH _ _ _ _ _ Ha' Hi' Hh' Hin' Hp).
       * rewrite (stop_ready _ _ Hr) in Hp. inversion Hp; subst s' done. rewrite Hmax in Hv.
         destruct (i =? s_hi s) eqn:Ei.
         -- (* the job that does not fit is the last candidate: it alone is handed back *)
@@ -329,7 +337,7 @@ Proof.
         + assert (Hin : incl (b_jobs (s_batch (visit p 0 j s0))) [j]) by (rewrite Hj; cbn; intros x Hx; exact Hx).
           assert (Hh : s_hi (visit p 0 j s0) = 0 + 1 - 1) by (rewrite Hv; cbn; lia).
           destruct (pass_pos_first p (j :: l) l [j] (0 + 1) _ s' done eq_refl eq_refl Hh Hin Ep) as [_ [Hlow _]]. lia.
-      - exfalso. cbn in Hgt. specialize (Hfit j (or_introl eq_refl) Ht). lia. }
+      - exfalso. cbn [s0 s_batch empty_batch b_time] in Hgt. specialize (Hfit j (or_introl eq_refl) Ht). lia. }
     destruct done.
     + split; [exact H1|]. intros Hne _ Hfit. left. auto.
     + destruct (passes_pos_later p avail n s' (H3 eq_refl) (Pos_incl _ _ H1)) as [H4 H5].
@@ -356,24 +364,25 @@ Proof.
 Qed.
 
 Theorem make_batch_contract p avail :
-  params_ok p -> NoDup (names avail) ->
+  NoDup (names avail) ->
   let m := make_batch p avail in
   NoDup (names (mb_batch m)) /\
   (exists pre, avail = (pre ++ mb_rest m)%list /\ incl (mb_batch m) pre /\ incl (mb_blocked m) avail) /\
   (forall x, In x (names (mb_batch m)) -> ~ In x (names (mb_rest m))) /\
-  (if g_time p then 60 * sum_est (mb_batch m) <= g_max p else (N.of_nat (length (mb_batch m)) <= g_size p)%N) /\
+  (if g_time p then mb_batch m = [] \/ 60 * sum_est (mb_batch m) <= g_max p
+   else (N.of_nat (length (mb_batch m)) <= N.max 1 (g_size p))%N) /\
   closed (mb_batch m) /\ blocked_only_if_try p (mb_batch m) /\
   (forall x, In x (mb_blocked m) -> ~ In (jname x) (names (mb_batch m)) /\ jblocked x <> []).
 Proof.
-  intros Hp Hnd m.
-  assert (HF : Fin p avail (passes (iters p avail) p avail s0)) by (apply passes_fin; apply Run_s0; exact Hp).
+  intros Hnd m.
+  assert (HF : Fin p avail (passes (iters p avail) p avail s0)) by (apply passes_fin; apply Run_s0).
   destruct HF as [Hi Hn Hc Ht Hl [Hb1 Hb2]].
   destruct (make_batch_rest p avail) as [pre [Ha Hin]].
   subst m. unfold make_batch in *. cbn [mb_batch mb_blocked mb_rest] in *. fold s0 in *. fold (iters p avail) in *.
   split; [exact Hn|]. split; [exists pre; repeat split; assumption|]. split.
   - intros x Hx Hr. rewrite Ha in Hnd. rewrite names_app in Hnd. apply NoDup_app_iff in Hnd. destruct Hnd as [_ [_ Hd]].
     apply (Hd x); [|exact Hr]. unfold names in Hx. apply in_map_iff in Hx. destruct Hx as [y [<- Hy]]. apply in_names. auto.
-  - repeat split; assumption.
+  - split; [exact Hl|]. split; [exact Hc|]. split; [exact Ht|exact Hb2].
 Qed.
 
 (* a call on a non-empty candidate list consumes at least one candidate, provided every estimate
@@ -391,5 +400,779 @@ Proof.
     - unfold iters in H. destruct (g_try p); [|discriminate]. destruct avail; [congruence|discriminate]. }
   destruct (s_hi (passes (iters p avail) p avail s0) =? Z.of_nat (length avail) - 1) eqn:E.
   - cbn. destruct avail; [congruence|cbn; lia].
-  - rewrite skipn_length. lia.
+  - rewrite skipn_length. assert (0 < length avail)%nat by (destruct avail; [congruence|cbn [length]; lia]). lia.
+Qed.
+
+(* ---------- coverage: every candidate is placed, reported blocked, or handed back as not checked ---------- *)
+Definition PB (x : cjob) (s : st) : Prop := In (jname x) (names (b_jobs (s_batch s))) \/ In x (s_blocked s).
+
+Lemma visit_cases p i j s :
+  (b_jobs (s_batch (visit p i j s)) = b_jobs (s_batch s) /\ s_blocked (visit p i j s) = add_blocked j (s_blocked s) /\
+   s_hi (visit p i j s) = Z.max (s_hi s) i) \/
+  (b_jobs (s_batch (visit p i j s)) = (b_jobs (s_batch s) ++ [j])%list /\
+   s_blocked (visit p i j s) = del_blocked (jname j) (s_blocked s) /\ s_hi (visit p i j s) = Z.max (s_hi s) i) \/
+  (b_jobs (s_batch (visit p i j s)) = b_jobs (s_batch s) /\ s_blocked (visit p i j s) = s_blocked s /\
+   b_ready (s_batch (visit p i j s)) = true /\
+   s_hi (visit p i j s) = (if i =? Z.max (s_hi s) i then Z.max (s_hi s) i - 1 else Z.max (s_hi s) i)).
+Proof.
+  unfold visit. destruct (is_blocked p (s_batch s) j); [left; repeat split; reflexivity|].
+  destruct (try_append p (s_batch s) j) as [b' ok] eqn:Et. pose proof (try_append_jobs _ _ _ _ _ Et) as Hj.
+  destruct ok; cbn [s_batch s_hi s_blocked].
+  - right; left. repeat split; [exact Hj].
+  - right; right. split; [exact Hj|]. split; [reflexivity|]. split; [eapply try_append_fail_ready; eauto|reflexivity].
+Qed.
+
+Lemma names_unique l x y : NoDup (names l) -> In x l -> In y l -> jname x = jname y -> x = y.
+Proof.
+  induction l as [|a l IH]; intros Hnd Hx Hy He; [destruct Hx|].
+  cbn in Hnd. inversion Hnd as [|? ? Hna Hnd']; subst.
+  destruct Hx as [<-|Hx]; destruct Hy as [<-|Hy]; [reflexivity| | |auto].
+  - exfalso. apply Hna. rewrite He. apply in_names. exact Hy.
+  - exfalso. apply Hna. rewrite <- He. apply in_names. exact Hx.
+Qed.
+
+Lemma add_blocked_has avail j l : NoDup (names avail) -> In j avail -> incl l avail -> In j (add_blocked j l).
+Proof.
+  intros Hnd Hj Hl. unfold add_blocked. destruct (memN (jname j) (names l)) eqn:E.
+  - apply memN_In in E. unfold names in E. apply in_map_iff in E. destruct E as [y [Hy1 Hy2]].
+    assert (y = j) by (eapply names_unique; eauto). subst y. exact Hy2.
+  - apply in_app_iff. right. left. reflexivity.
+Qed.
+Lemma add_blocked_keeps j l x : In x l -> In x (add_blocked j l).
+Proof. unfold add_blocked. destruct (memN _ _); [auto|]. intros H. apply in_app_iff. left. exact H. Qed.
+
+Lemma visit_PB_mono p i j s x : PB x s -> PB x (visit p i j s).
+Proof.
+  unfold PB. destruct (visit_cases p i j s) as [[H1 [H2 _]]|[[H1 [H2 _]]|[H1 [H2 _]]]]; rewrite H1, H2; intros [H|H].
+  - left; exact H.
+  - right; apply add_blocked_keeps; exact H.
+  - left. rewrite names_app. apply in_app_iff. left. exact H.
+  - destruct (N.eq_dec (jname x) (jname j)) as [E|E].
+    + left. rewrite names_app. apply in_app_iff. right. left. symmetry. exact E.
+    + right. apply del_blocked_in. split; assumption.
+  - left; exact H.
+  - right; exact H.
+Qed.
+Lemma visit_blocked_incl p avail i j s : In j avail -> incl (s_blocked s) avail -> incl (s_blocked (visit p i j s)) avail.
+Proof.
+  intros Hj Hl. destruct (visit_cases p i j s) as [[_ [H2 _]]|[[_ [H2 _]]|[_ [H2 _]]]]; rewrite H2; intros x Hx.
+  - apply add_blocked_in in Hx. destruct Hx as [->|Hx]; auto.
+  - apply del_blocked_in in Hx. apply Hl. tauto.
+  - auto.
+Qed.
+
+Lemma in_firstn {A} n (l : list A) x : In x (firstn n l) -> In x l.
+Proof. intros H. rewrite <- (firstn_skipn n l). apply in_app_iff. left. exact H. Qed.
+Lemma firstn_prefix {A} (pre l : list A) : firstn (length pre) (pre ++ l) = pre.
+Proof.
+  rewrite <- (Nat.add_0_r (length pre)). rewrite firstn_app_2. cbn. apply app_nil_r.
+Qed.
+
+Lemma pass_cov_first p avail (Hnd : NoDup (names avail)) : forall l pre i s s' done,
+  avail = (pre ++ l)%list -> i = Z.of_nat (length pre) -> s_hi s = i - 1 ->
+  incl (s_blocked s) avail -> (forall x, In x pre -> PB x s) ->
+  pass p (length avail) l i s = (s', done) ->
+  incl (s_blocked s') avail /\ (forall x, In x (firstn (Z.to_nat (s_hi s' + 1)) avail) -> PB x s').
+Proof.
+  induction l as [|j l IH]; intros pre i s s' done Ha Hi Hh Hb Hc Hp; cbn [pass] in Hp.
+  - inversion Hp; subst s' done. split; [exact Hb|]. rewrite app_nil_r in Ha. subst avail.
+    replace (Z.to_nat (s_hi s + 1)) with (length pre) by lia. rewrite firstn_all. exact Hc.
+  - assert (Ha' : avail = ((pre ++ [j]) ++ l)%list) by (rewrite <- app_assoc; exact Ha).
+    assert (Hi' : i + 1 = Z.of_nat (length (pre ++ [j]))) by (rewrite app_length; cbn; lia).
+    assert (Hjin : In j avail) by (rewrite Ha; apply in_app_iff; right; left; reflexivity).
+    assert (Hmax : Z.max (s_hi s) i = i) by lia.
+    destruct (memN (jname j) (names (b_jobs (s_batch s)))) eqn:Em.
+    + apply memN_In in Em.
+      refine (IH (pre ++ [j])%list (i + 1) _ s' done Ha' Hi' _ _ _ Hp); cbn [s_hi s_blocked]; [lia|exact Hb|].
+      intros x Hx. apply in_app_iff in Hx. destruct Hx as [Hx|[<-|[]]].
+      * destruct (Hc x Hx) as [H|H]; [left|right]; exact H.
+      * left. exact Em.
+    + assert (Hb' : incl (s_blocked (visit p i j s)) avail) by (apply visit_blocked_incl; assumption).
+      destruct (visit_cases p i j s) as [[H1 [H2 H3]]|[[H1 [H2 H3]]|[H1 [H2 [Hr H3]]]]].
+      * assert (Hc' : forall x, In x (pre ++ [j]) -> PB x (visit p i j s)).
+        { intros x Hx. apply in_app_iff in Hx. destruct Hx as [Hx|[<-|[]]]; [apply visit_PB_mono; auto|].
+          right. rewrite H2. eapply add_blocked_has; eauto. }
+        destruct (stop (length avail) (visit p i j s)) eqn:Es.
+        -- inversion Hp; subst s' done. split; [exact Hb'|].
+           replace (Z.to_nat (s_hi (visit p i j s) + 1)) with (length (pre ++ [j])) by lia.
+           rewrite Ha'. rewrite firstn_prefix. exact Hc'.
+        -- refine (IH (pre ++ [j])%list (i + 1) _ s' done Ha' Hi' _ Hb' Hc' Hp). lia.
+      * assert (Hc' : forall x, In x (pre ++ [j]) -> PB x (visit p i j s)).
+        { intros x Hx. apply in_app_iff in Hx. destruct Hx as [Hx|[<-|[]]]; [apply visit_PB_mono; auto|].
+          left. rewrite H1, names_app. apply in_app_iff. right. left. reflexivity. }
+        destruct (stop (length avail) (visit p i j s)) eqn:Es.
+        -- inversion Hp; subst s' done. split; [exact Hb'|].
+           replace (Z.to_nat (s_hi (visit p i j s) + 1)) with (length (pre ++ [j])) by lia.
+           rewrite Ha'. rewrite firstn_prefix. exact Hc'.
+        -- refine (IH (pre ++ [j])%list (i + 1) _ s' done Ha' Hi' _ Hb' Hc' Hp). lia.
+      * rewrite (stop_ready _ _ Hr) in Hp. inversion Hp; subst s' done. split; [exact Hb'|].
+        rewrite Hmax, Z.eqb_refl in H3.
+        replace (Z.to_nat (s_hi (visit p i j s) + 1)) with (length pre) by lia.
+        rewrite Ha. rewrite firstn_prefix. intros x Hx. apply visit_PB_mono. auto.
+Qed.
+
+Lemma pass_cov_later p avail : forall l i s s' done,
+  incl l avail -> incl (s_blocked s) avail -> (forall x, In x avail -> PB x s) ->
+  pass p (length avail) l i s = (s', done) ->
+  incl (s_blocked s') avail /\ (forall x, In x avail -> PB x s').
+Proof.
+  induction l as [|j l IH]; intros i s s' done Hl Hb Hc Hp; cbn [pass] in Hp.
+  - inversion Hp; subst. split; assumption.
+  - assert (Hj : In j avail) by (apply Hl; left; reflexivity).
+    assert (Hl' : incl l avail) by (intros x Hx; apply Hl; right; exact Hx).
+    destruct (memN (jname j) (names (b_jobs (s_batch s)))) eqn:Em.
+    + refine (IH _ _ s' done Hl' _ _ Hp); cbn [s_blocked]; [exact Hb|].
+      intros x Hx. destruct (Hc x Hx) as [H|H]; [left|right]; exact H.
+    + assert (Hb' : incl (s_blocked (visit p i j s)) avail) by (apply visit_blocked_incl; assumption).
+      assert (Hc' : forall x, In x avail -> PB x (visit p i j s)) by (intros x Hx; apply visit_PB_mono; auto).
+      destruct (stop (length avail) (visit p i j s)).
+      * inversion Hp; subst. split; assumption.
+      * exact (IH _ _ s' done Hl' Hb' Hc' Hp).
+Qed.
+
+Lemma passes_cov_later p avail : forall n s,
+  incl (s_blocked s) avail -> (forall x, In x avail -> PB x s) ->
+  incl (s_blocked (passes n p avail s)) avail /\ (forall x, In x avail -> PB x (passes n p avail s)).
+Proof.
+  induction n as [|n IH]; intros s Hb Hc; cbn [passes]; [split; assumption|].
+  destruct (pass p (length avail) avail 0 s) as [s' done] eqn:Ep.
+  destruct (pass_cov_later p avail avail 0 s s' done (incl_refl _) Hb Hc Ep) as [Hb' Hc'].
+  destruct done; [split; assumption|apply IH; assumption].
+Qed.
+
+Lemma passes_cov p avail n : NoDup (names avail) ->
+  incl (s_blocked (passes n p avail s0)) avail /\
+  (forall x, In x (firstn (Z.to_nat (s_hi (passes n p avail s0) + 1)) avail) -> PB x (passes n p avail s0)).
+Proof.
+  intros Hnd. destruct n as [|n]; cbn [passes].
+  - split; [intros x []|]. cbn. intros x [].
+  - destruct (pass p (length avail) avail 0 s0) as [s' done] eqn:Ep.
+    destruct (pass_cov_first p avail Hnd avail [] 0 s0 s' done eq_refl eq_refl eq_refl (fun x (H : In x []) => match H with end)
+                (fun x (H : In x []) => match H with end) Ep) as [Hb Hc].
+    destruct done; [split; assumption|].
+    destruct (pass_pos_first p avail avail [] 0 s0 s' false eq_refl eq_refl eq_refl (fun x H => H) Ep) as [_ [_ H3]].
+    specialize (H3 eq_refl).
+    assert (Hall : forall x, In x avail -> PB x s').
+    { intros x Hx. apply Hc. rewrite H3. replace (Z.to_nat (Z.of_nat (length avail) - 1 + 1)) with (length avail) by lia.
+      rewrite firstn_all. exact Hx. }
+    destruct (passes_cov_later p avail n s' Hb Hall) as [Hb' Hc']. split; [exact Hb'|].
+    intros x Hx. apply Hc'. eapply in_firstn; exact Hx.
+Qed.
+
+Theorem make_batch_cover p avail : NoDup (names avail) ->
+  forall x, In x avail ->
+    In (jname x) (names (mb_batch (make_batch p avail))) \/ In x (mb_blocked (make_batch p avail)) \/
+    In x (mb_rest (make_batch p avail)).
+Proof.
+  intros Hnd x Hx. unfold make_batch. cbn [mb_batch mb_blocked mb_rest]. fold s0. fold (iters p avail).
+  destruct (passes_cov p avail (iters p avail) Hnd) as [_ Hc].
+  destruct (s_hi (passes (iters p avail) p avail s0) =? Z.of_nat (length avail) - 1) eqn:E.
+  - apply Z.eqb_eq in E. destruct (Hc x) as [H|H]; [|left; exact H|right; left; exact H].
+    rewrite E. replace (Z.to_nat (Z.of_nat (length avail) - 1 + 1)) with (length avail) by lia.
+    rewrite firstn_all. exact Hx.
+  - pose proof (firstn_skipn (Z.to_nat (s_hi (passes (iters p avail) p avail s0) + 1)) avail) as Hs.
+    assert (Hx' : In x (firstn (Z.to_nat (s_hi (passes (iters p avail) p avail s0) + 1)) avail ++
+                        skipn (Z.to_nat (s_hi (passes (iters p avail) p avail s0) + 1)) avail)) by (rewrite Hs; exact Hx).
+    apply in_app_iff in Hx'. destruct Hx' as [Hx'|Hx']; [|right; right; exact Hx'].
+    destruct (Hc x Hx') as [H|H]; [left; exact H|right; left; exact H].
+Qed.
+
+(* ---- the component lemmas C01 cites ---- *)
+Theorem make_batch_batch_nodup p avail :
+  NoDup (names avail) -> NoDup (names (mb_batch (make_batch p avail))).
+Proof. intros H. exact (proj1 (make_batch_contract p avail H)). Qed.
+
+Theorem make_batch_rest_disjoint p avail :
+  NoDup (names avail) ->
+  forall x, In x (names (mb_batch (make_batch p avail))) -> ~ In x (names (mb_rest (make_batch p avail))).
+Proof. intros H. exact (proj1 (proj2 (proj2 (make_batch_contract p avail H)))). Qed.
+
+(* ---------- candidate lists ---------- *)
+Lemma insert_perm j l : Permutation (insert_by_est j l) (j :: l).
+Proof.
+  induction l as [|x r IH]; cbn [insert_by_est]; [apply Permutation_refl|].
+  destruct (jest j <=? jest x); [apply Permutation_refl|].
+  eapply Permutation_trans; [apply perm_skip; exact IH|apply perm_swap].
+Qed.
+Lemma sort_perm l : Permutation (sort_by_est l) l.
+Proof.
+  induction l as [|x r IH]; cbn; [apply perm_nil|].
+  eapply Permutation_trans; [apply insert_perm|apply perm_skip; exact IH].
+Qed.
+Lemma filter_names_nodup f (l : list cjob) : NoDup (names l) -> NoDup (names (filter f l)).
+Proof.
+  induction l as [|x r IH]; cbn; intros H; [constructor|]. inversion H as [|? ? Hn Hr]; subst.
+  destruct (f x); [|auto]. cbn. constructor; [|auto]. intros Hc. apply Hn.
+  unfold names in Hc. apply in_map_iff in Hc. destruct Hc as [y [Hy1 Hy2]]. apply filter_In in Hy2.
+  rewrite <- Hy1. apply in_names. tauto.
+Qed.
+Lemma available_spec g ns x : In x (available g ns) <-> In x ns /\ jgroup x = g_name g.
+Proof.
+  unfold available.
+  assert (H : In x (filter (fun j => N.eqb (jgroup j) (g_name g)) ns) <-> In x ns /\ jgroup x = g_name g).
+  { rewrite filter_In, N.eqb_eq. tauto. }
+  destruct (g_time g); [|exact H]. rewrite <- H. split; apply Permutation_in; [apply sort_perm|apply Permutation_sym, sort_perm].
+Qed.
+Lemma available_nodup g ns : NoDup (names ns) -> NoDup (names (available g ns)).
+Proof.
+  intros H. unfold available. pose proof (filter_names_nodup (fun j => N.eqb (jgroup j) (g_name g)) ns H) as Hf.
+  destruct (g_time g); [|exact Hf].
+  eapply Permutation_NoDup; [|exact Hf]. apply Permutation_map. apply Permutation_sym, sort_perm.
+Qed.
+
+(* ---------- _submit_batches and the group loop ---------- *)
+Definition sb_step (p : gparams) (avail : list cjob) (r : rstate) : rstate :=
+  let m := make_batch p avail in
+  let r1 := {| r_out := r_out r; r_index := r_index r; r_oks := r_oks r; r_subs := r_subs r;
+               r_submitted := r_submitted r ++ mb_batch m; r_blocked := r_blocked r ++ mb_blocked m |} in
+  match mb_batch m with [] => r1 | _ => submit_batch p (mb_batch m) r1 end.
+
+Lemma submit_batches_S f depth p avail r :
+  submit_batches (S f) depth p avail r =
+  match avail with
+  | [] => ROk r
+  | _ => if is_full depth r then ROk r
+         else submit_batches f depth p (mb_rest (make_batch p avail)) (sb_step p avail r)
+  end.
+Proof. destruct avail; reflexivity. Qed.
+
+Lemma submit_batches_inv depth p (P : list cjob -> rstate -> Prop) :
+  (forall avail r, P avail r -> avail <> [] -> is_full depth r = false ->
+                   P (mb_rest (make_batch p avail)) (sb_step p avail r)) ->
+  forall fuel avail r r', P avail r -> submit_batches fuel depth p avail r = ROk r' ->
+  exists rest, P rest r' /\ (rest = [] \/ is_full depth r' = true).
+Proof.
+  intros Hstep. induction fuel as [|f IH]; intros avail r r' HP Hs.
+  - cbn [submit_batches] in Hs. destruct avail as [|a l].
+    + inversion Hs; subst. exists []. auto.
+    + destruct (is_full depth r) eqn:Ef; [|discriminate]. inversion Hs; subst. exists (a :: l). auto.
+  - rewrite submit_batches_S in Hs. destruct avail as [|a l].
+    + inversion Hs; subst. exists []. auto.
+    + destruct (is_full depth r) eqn:Ef.
+      * inversion Hs; subst. exists (a :: l). auto.
+      * eapply IH; [|exact Hs]. apply Hstep; [exact HP|discriminate|exact Ef].
+Qed.
+
+Lemma submit_groups_inv depth ns (Q : list gparams -> rstate -> Prop) :
+  (forall done g r, Q done r -> is_full depth r = true -> Q (done ++ [g]) r) ->
+  (forall done g r r', Q done r -> is_full depth r = false ->
+     submit_batches (S (length (available g ns))) depth g (available g ns) r = ROk r' -> Q (done ++ [g]) r') ->
+  forall groups done r r', Q done r -> submit_groups depth groups ns r = ROk r' -> Q (done ++ groups) r'.
+Proof.
+  intros Hfull Hrun. induction groups as [|g gs IH]; intros done r r' HQ Hs; cbn [submit_groups] in Hs.
+  - inversion Hs; subst. rewrite app_nil_r. exact HQ.
+  - replace (done ++ g :: gs)%list with ((done ++ [g]) ++ gs)%list by (rewrite <- app_assoc; reflexivity).
+    destruct (is_full depth r) eqn:Ef.
+    + eapply IH; [|exact Hs]. apply Hfull; assumption.
+    + destruct (submit_batches (S (length (available g ns))) depth g (available g ns) r) as [r1|] eqn:Es; [|discriminate].
+      eapply IH; [|exact Hs]. eapply Hrun; eauto.
+Qed.
+
+Definition subs_jobs (l : list sub) : list cjob := concat (map sb_jobs l).
+Definition count_ok (l : list sub) : nat := length (filter sb_ok l).
+Fixpoint nseq (start : N) (n : nat) : list N :=
+  match n with O => [] | S k => start :: nseq (N.succ start) k end.
+
+Lemma nseq_app start n : nseq start (n + 1) = (nseq start n ++ [(start + N.of_nat n)%N])%list.
+Proof.
+  revert start. induction n as [|n IH]; intros start; cbn [nseq Nat.add].
+  - cbn. rewrite N.add_0_r. reflexivity.
+  - rewrite IH. cbn [app]. do 3 f_equal. lia.
+Qed.
+Lemma nseq_in start n x : In x (nseq start n) <-> (start <= x < start + N.of_nat n)%N.
+Proof.
+  revert start. induction n as [|n IH]; intros start; cbn [nseq In].
+  - split; [intros []|lia].
+  - rewrite IH. lia.
+Qed.
+Lemma nseq_nodup start n : NoDup (nseq start n).
+Proof.
+  revert start. induction n as [|n IH]; intros start; cbn [nseq]; constructor; [|apply IH].
+  rewrite nseq_in. lia.
+Qed.
+Lemma subs_jobs_app a b : subs_jobs (a ++ b) = (subs_jobs a ++ subs_jobs b)%list.
+Proof. unfold subs_jobs. rewrite map_app, concat_app. reflexivity. Qed.
+Lemma count_ok_app a b : count_ok (a ++ b) = (count_ok a + count_ok b)%nat.
+Proof. unfold count_ok. rewrite filter_app, app_length. reflexivity. Qed.
+
+(* the limit a submitted (non-empty) batch obeys *)
+Definition limit_ok (p : gparams) (jobs : list cjob) : Prop :=
+  if g_time p then 60 * sum_est jobs <= g_max p
+  else (1 <= N.of_nat (length jobs) <= N.max 1 (g_size p))%N.
+
+(* what holds of every batch handed to _submit_batch *)
+Definition SubOK (gs : list gparams) (ns : list cjob) (s : sub) : Prop :=
+  exists g, In g gs /\ sb_group s = g_name g /\ sb_jobs s <> [] /\
+            incl (sb_jobs s) (available g ns) /\ NoDup (names (sb_jobs s)) /\ limit_ok g (sb_jobs s) /\
+            closed (sb_jobs s) /\ blocked_only_if_try g (sb_jobs s) /\ (g_dry g = true -> sb_ok s = true).
+
+Record RInv (depth out0 index0 : N) (ns : list cjob) (done : list gparams) (r : rstate) : Prop := {
+  ri_sub : r_submitted r = subs_jobs (r_subs r);
+  ri_idx : map sb_index (r_subs r) = nseq index0 (length (r_subs r));
+  ri_next : r_index r = (index0 + N.of_nat (length (r_subs r)))%N;
+  ri_out : r_out r = (out0 + N.of_nat (count_ok (r_subs r)))%N;
+  ri_cap : (r_out r <= N.max depth out0)%N;
+  ri_subs : Forall (SubOK done ns) (r_subs r);
+  ri_nodup : NoDup (names (r_submitted r));
+  ri_incl : incl (r_submitted r) ns;
+  ri_grp : forall x, In x (r_submitted r) -> In (jgroup x) (map g_name done);
+  ri_blk : forall x, In x (r_blocked r) -> In x ns /\ jblocked x <> []
+}.
+
+Lemma SubOK_mono gs gs' ns s : incl gs gs' -> SubOK gs ns s -> SubOK gs' ns s.
+Proof. intros Hi [g [Hg H]]. exists g. split; [apply Hi; exact Hg|exact H]. Qed.
+
+Lemma RInv_mono depth out0 index0 ns done g r :
+  RInv depth out0 index0 ns done r -> RInv depth out0 index0 ns (done ++ [g]) r.
+Proof.
+  intros [H1 H2 H3 H4 H5 H6 H7 H8 H9 H10]. constructor; try assumption.
+  - eapply Forall_impl; [|exact H6]. intros s. apply SubOK_mono. intros x Hx. apply in_app_iff. left. exact Hx.
+  - intros x Hx. rewrite map_app. apply in_app_iff. left. auto.
+Qed.
+
+(* invariant of the loop in _submit_batches for group g; `done` = the groups handled before *)
+Definition GP (depth out0 index0 : N) (ns : list cjob) (done : list gparams) (g : gparams)
+           (avail : list cjob) (r : rstate) : Prop :=
+  RInv depth out0 index0 ns (done ++ [g]) r /\ NoDup (names avail) /\ incl avail (available g ns) /\
+  (forall x, In x (names (r_submitted r)) -> ~ In x (names avail)) /\
+  (forall x, In x (available g ns) ->
+             In (jname x) (names (r_submitted r)) \/ In x (r_blocked r) \/ In x avail) /\
+  (forall g' x, In g' done -> In x ns -> jgroup x = g_name g' ->
+                In (jname x) (names (r_submitted r)) \/ In x (r_blocked r)).
+
+Lemma is_full_false depth r : is_full depth r = false -> (r_out r < depth)%N.
+Proof. unfold is_full, queue_full. intros H. apply N.leb_gt in H. exact H. Qed.
+
+Lemma names_incl a b : incl a b -> incl (names a) (names b).
+Proof. intros H x Hx. unfold names in *. apply in_map_iff in Hx. destruct Hx as [y [<- Hy]]. apply in_map. auto. Qed.
+
+Lemma sb_step_GP depth out0 index0 ns done g avail r :
+  GP depth out0 index0 ns done g avail r -> avail <> [] -> is_full depth r = false ->
+  GP depth out0 index0 ns done g (mb_rest (make_batch g avail)) (sb_step g avail r).
+Proof.
+  intros [HR [Hnd [Hav [Hdis [Hcov Hold]]]]] Hne Hfull.
+  destruct (make_batch_contract g avail Hnd) as [Mn [[pre [Ma [Mi Mb]]] [Md [Ml [Mc [Mt Mbl]]]]]].
+  pose proof (make_batch_cover g avail Hnd) as Mcov.
+  assert (F1 : incl (mb_batch (make_batch g avail)) avail).
+  { intros x Hx. rewrite Ma. apply in_app_iff. left. auto. }
+  assert (F3 : incl (mb_rest (make_batch g avail)) avail).
+  { intros x Hx. rewrite Ma. apply in_app_iff. right. exact Hx. }
+  assert (F2 : NoDup (names (mb_rest (make_batch g avail)))).
+  { rewrite Ma, names_app in Hnd. apply NoDup_app_iff in Hnd. tauto. }
+  assert (Fsub : r_submitted (sb_step g avail r) = (r_submitted r ++ mb_batch (make_batch g avail))%list).
+  { unfold sb_step. destruct (mb_batch (make_batch g avail)); reflexivity. }
+  assert (Fblk : r_blocked (sb_step g avail r) = (r_blocked r ++ mb_blocked (make_batch g avail))%list).
+  { unfold sb_step. destruct (mb_batch (make_batch g avail)); reflexivity. }
+  assert (Fnd : NoDup (names (r_submitted r ++ mb_batch (make_batch g avail)))).
+  { rewrite names_app. apply NoDup_app_iff. split; [apply (ri_nodup _ _ _ _ _ _ HR)|]. split; [exact Mn|].
+    intros x Hx Hb. apply (Hdis x Hx). exact (names_incl _ _ F1 x Hb). }
+  assert (Fincl : incl (r_submitted r ++ mb_batch (make_batch g avail)) ns).
+  { intros x Hx. apply in_app_iff in Hx. destruct Hx as [Hx|Hx]; [apply (ri_incl _ _ _ _ _ _ HR); exact Hx|].
+    apply (available_spec g ns x). auto. }
+  assert (Fgrp : forall x, In x (r_submitted r ++ mb_batch (make_batch g avail)) -> In (jgroup x) (map g_name (done ++ [g]))).
+  { intros x Hx. apply in_app_iff in Hx. destruct Hx as [Hx|Hx]; [apply (ri_grp _ _ _ _ _ _ HR); exact Hx|].
+    assert (Hg : jgroup x = g_name g) by (apply (available_spec g ns x); auto).
+    rewrite Hg, map_app. apply in_app_iff. right. left. reflexivity. }
+  assert (Fb : forall x, In x (r_blocked r ++ mb_blocked (make_batch g avail)) -> In x ns /\ jblocked x <> []).
+  { intros x Hx. apply in_app_iff in Hx. destruct Hx as [Hx|Hx]; [apply (ri_blk _ _ _ _ _ _ HR); exact Hx|].
+    split; [apply (available_spec g ns x); auto|apply Mbl; exact Hx]. }
+  split; [|split; [exact F2|split; [intros x Hx; auto|split; [|split]]]].
+  - (* RInv *)
+    destruct HR as [H1 H2 H3 H4 H5 H6 H7 H8 H9 H10].
+    destruct (mb_batch (make_batch g avail)) as [|b bs] eqn:Eb.
+    + unfold sb_step. rewrite Eb. rewrite app_nil_r in *.
+      constructor; cbn [r_out r_index r_oks r_subs r_submitted r_blocked]; assumption.
+    + unfold sb_step. rewrite Eb. unfold submit_batch. cbn [r_out r_index r_oks r_subs r_submitted r_blocked].
+      set (ok := g_dry g || hd true (r_oks r)).
+      set (sb := {| sb_index := r_index r; sb_group := g_name g; sb_jobs := b :: bs; sb_ok := ok |}).
+      constructor; cbn [r_out r_index r_oks r_subs r_submitted r_blocked]; try assumption.
+      * rewrite subs_jobs_app, H1. unfold subs_jobs at 2. cbn. rewrite app_nil_r. reflexivity.
+      * rewrite map_app, app_length. cbn [map length sb sb_index]. rewrite nseq_app, H2, H3. reflexivity.
+      * rewrite app_length. cbn [length]. lia.
+      * rewrite count_ok_app. unfold count_ok at 2. cbn [filter sb sb_ok]. destruct ok; cbn [length]; lia.
+      * apply is_full_false in Hfull. destruct ok; lia.
+      * apply Forall_app. split; [exact H6|]. constructor; [|constructor].
+        exists g. split; [apply in_app_iff; right; left; reflexivity|]. cbn [sb sb_group sb_jobs sb_ok].
+        split; [reflexivity|]. split; [discriminate|]. split; [intros x Hx; auto|]. split; [exact Mn|].
+        split; [|split; [exact Mc|split; [exact Mt|]]].
+        -- unfold limit_ok. destruct (g_time g).
+           ++ destruct Ml as [Ml|Ml]; [discriminate|exact Ml].
+           ++ cbn [length] in *. lia.
+        -- intros Hd. unfold ok. rewrite Hd. reflexivity.
+  - rewrite Fsub. intros x Hx Hr. rewrite names_app in Hx. apply in_app_iff in Hx. destruct Hx as [Hx|Hx].
+    + apply (Hdis x Hx). exact (names_incl _ _ F3 x Hr).
+    + exact (Md x Hx Hr).
+  - rewrite Fsub, Fblk. intros x Hx. rewrite names_app. destruct (Hcov x Hx) as [H|[H|H]].
+    + left. apply in_app_iff. left. exact H.
+    + right. left. apply in_app_iff. left. exact H.
+    + destruct (Mcov x H) as [H'|[H'|H']].
+      * left. apply in_app_iff. right. exact H'.
+      * right. left. apply in_app_iff. right. exact H'.
+      * right. right. exact H'.
+  - rewrite Fsub, Fblk. intros g' x Hg' Hx Hgx. rewrite names_app. destruct (Hold g' x Hg' Hx Hgx) as [H|H].
+    + left. apply in_app_iff. left. exact H.
+    + right. apply in_app_iff. left. exact H.
+Qed.
+
+(* unless the queue is full, every NOT_SUBMITTED job of the groups handled so far was placed in a batch of
+   this round or reported blocked *)
+Definition Cover (ns : list cjob) (gs : list gparams) (r : rstate) : Prop :=
+  forall g x, In g gs -> In x ns -> jgroup x = g_name g ->
+              In (jname x) (names (r_submitted r)) \/ In x (r_blocked r).
+
+Definition QInv (depth out0 index0 : N) (ns : list cjob) (done : list gparams) (r : rstate) : Prop :=
+  NoDup (map g_name done) ->
+  RInv depth out0 index0 ns done r /\ (is_full depth r = true \/ Cover ns done r).
+
+Lemma submit_groups_QInv depth out0 index0 ns : NoDup (names ns) ->
+  forall groups done r r',
+    QInv depth out0 index0 ns done r -> submit_groups depth groups ns r = ROk r' ->
+    QInv depth out0 index0 ns (done ++ groups) r'.
+Proof.
+  intros Hns. apply submit_groups_inv.
+  - intros done g r HQ Hf Hnd. rewrite map_app in Hnd. apply NoDup_app_iff in Hnd. destruct Hnd as [Hnd _].
+    destruct (HQ Hnd) as [HR _]. split; [apply RInv_mono; exact HR|left; exact Hf].
+  - intros done g r r' HQ Hf Hs Hnd.
+    assert (Hnd' := Hnd). rewrite map_app in Hnd'. apply NoDup_app_iff in Hnd'. destruct Hnd' as [Hnd1 [_ Hdisj]].
+    destruct (HQ Hnd1) as [HR Hc]. destruct Hc as [Hc|Hc]; [congruence|].
+    assert (HGP : GP depth out0 index0 ns done g (available g ns) r).
+    { split; [apply RInv_mono; exact HR|]. split; [apply available_nodup; exact Hns|]. split; [apply incl_refl|].
+      split; [|split].
+      - intros x Hx Ha. unfold names in Hx, Ha. apply in_map_iff in Hx. destruct Hx as [y [Hy1 Hy2]].
+        apply in_map_iff in Ha. destruct Ha as [z [Hz1 Hz2]].
+        apply available_spec in Hz2. destruct Hz2 as [Hz2 Hz3].
+        assert (y = z).
+        { eapply names_unique; [exact Hns|apply (ri_incl _ _ _ _ _ _ HR); exact Hy2|exact Hz2|congruence]. }
+        subst z. apply (Hdisj (g_name g)); [rewrite <- Hz3; apply (ri_grp _ _ _ _ _ _ HR); exact Hy2|left; reflexivity].
+      - intros x Hx. right. right. exact Hx.
+      - exact Hc. }
+    destruct (submit_batches_inv depth g (GP depth out0 index0 ns done g)
+                (fun avail r => sb_step_GP depth out0 index0 ns done g avail r) _ _ _ _ HGP Hs)
+      as [rest [[HR' [_ [_ [_ [Hcov Hold]]]]] Hend]].
+    split; [exact HR'|]. destruct Hend as [->|Hf']; [|left; exact Hf']. right.
+    intros g' x Hg' Hx Hgx. apply in_app_iff in Hg'. destruct Hg' as [Hg'|[<-|[]]]; [eapply Hold; eauto|].
+    destruct (Hcov x) as [H|[H|[]]]; [apply available_spec; auto|left; exact H|right; exact H].
+Qed.
+
+Definition r_init (out0 index0 : N) (oks : list bool) : rstate :=
+  {| r_out := out0; r_index := index0; r_oks := oks; r_subs := []; r_submitted := []; r_blocked := [] |}.
+
+Lemma RInv_init depth out0 index0 oks ns : RInv depth out0 index0 ns [] (r_init out0 index0 oks).
+Proof.
+  constructor; cbn; try reflexivity; try lia; try (constructor; fail); intros x [].
+Qed.
+
+(* everything the round establishes, for any number of jobs and groups *)
+Theorem submit_round_inv depth out0 index0 oks groups ns r :
+  NoDup (names ns) -> NoDup (map g_name groups) ->
+  submit_round depth out0 index0 oks groups ns = ROk r ->
+  RInv depth out0 index0 ns groups r /\ (is_full depth r = true \/ Cover ns groups r).
+Proof.
+  intros Hns Hg Hs. unfold submit_round in Hs. fold (r_init out0 index0 oks) in Hs.
+  assert (HQ : QInv depth out0 index0 ns [] (r_init out0 index0 oks)).
+  { intros _. split; [apply RInv_init|]. right. intros g x []. }
+  exact (submit_groups_QInv depth out0 index0 ns Hns groups [] _ _ HQ Hs Hg).
+Qed.
+
+(* ---- named corollaries (C01 cites the first three) ---- *)
+Theorem submit_round_disjoint depth out0 index0 oks groups ns r :
+  NoDup (names ns) -> NoDup (map g_name groups) ->
+  submit_round depth out0 index0 oks groups ns = ROk r ->
+  NoDup (names (subs_jobs (r_subs r))) /\ incl (subs_jobs (r_subs r)) ns /\ r_submitted r = subs_jobs (r_subs r).
+Proof.
+  intros Hns Hg Hs. destruct (submit_round_inv _ _ _ _ _ _ _ Hns Hg Hs) as [[H1 H2 H3 H4 H5 H6 H7 H8 H9 H10] _].
+  rewrite <- H1. repeat split; assumption.
+Qed.
+
+Theorem batch_index_fresh depth out0 index0 oks groups ns r :
+  NoDup (names ns) -> NoDup (map g_name groups) ->
+  submit_round depth out0 index0 oks groups ns = ROk r ->
+  map sb_index (r_subs r) = nseq index0 (length (r_subs r)) /\
+  r_index r = (index0 + N.of_nat (length (r_subs r)))%N /\
+  NoDup (map sb_index (r_subs r)) /\
+  (forall s, In s (r_subs r) -> (index0 <= sb_index s < r_index r)%N).
+Proof.
+  intros Hns Hg Hs. destruct (submit_round_inv _ _ _ _ _ _ _ Hns Hg Hs) as [[H1 H2 H3 H4 H5 H6 H7 H8 H9 H10] _].
+  split; [exact H2|]. split; [exact H3|]. split; [rewrite H2; apply nseq_nodup|].
+  intros s Hs'. rewrite H3. apply nseq_in. rewrite <- H2. apply in_map. exact Hs'.
+Qed.
+
+Theorem submit_round_slots depth out0 index0 oks groups ns r :
+  NoDup (names ns) -> NoDup (map g_name groups) ->
+  submit_round depth out0 index0 oks groups ns = ROk r ->
+  r_out r = (out0 + N.of_nat (count_ok (r_subs r)))%N /\
+  (N.of_nat (count_ok (r_subs r)) <= depth - out0)%N.
+Proof.
+  intros Hns Hg Hs. destruct (submit_round_inv _ _ _ _ _ _ _ Hns Hg Hs) as [[H1 H2 H3 H4 H5 H6 H7 H8 H9 H10] _].
+  split; [exact H4|]. lia.
+Qed.
+
+Theorem submit_round_batches depth out0 index0 oks groups ns r :
+  NoDup (names ns) -> NoDup (map g_name groups) ->
+  submit_round depth out0 index0 oks groups ns = ROk r ->
+  Forall (SubOK groups ns) (r_subs r).
+Proof.
+  intros Hns Hg Hs. destruct (submit_round_inv _ _ _ _ _ _ _ Hns Hg Hs) as [[H1 H2 H3 H4 H5 H6 H7 H8 H9 H10] _].
+  exact H6.
+Qed.
+
+(* maximality: when the round ends with free slots, every NOT_SUBMITTED job of a listed group that has no
+   unfinished blocker was placed in a batch *)
+Theorem submit_round_maximal depth out0 index0 oks groups ns r :
+  NoDup (names ns) -> NoDup (map g_name groups) ->
+  submit_round depth out0 index0 oks groups ns = ROk r ->
+  is_full depth r = true \/
+  forall g x, In g groups -> In x ns -> jgroup x = g_name g -> jblocked x = [] ->
+              In (jname x) (names (subs_jobs (r_subs r))).
+Proof.
+  intros Hns Hg Hs. destruct (submit_round_inv _ _ _ _ _ _ _ Hns Hg Hs) as [[H1 H2 H3 H4 H5 H6 H7 H8 H9 H10] Hc].
+  destruct Hc as [Hc|Hc]; [left; exact Hc|right]. intros g x Hgi Hx Hgx Hb. rewrite <- H1.
+  destruct (Hc g x Hgi Hx Hgx) as [H|H]; [exact H|]. exfalso. apply (proj2 (H10 x H)). exact Hb.
+Qed.
+
+(* ---------- the fuel of the model's while loop suffices ---------- *)
+Definition fits (p : gparams) (l : list cjob) : Prop :=
+  forall j, In j l -> g_time p = true -> 60 * jest j <= g_max p.
+
+Lemma submit_batches_fuel depth p : forall fuel avail r,
+  (length avail < fuel)%nat -> fits p avail -> submit_batches fuel depth p avail r <> ROutOfFuel.
+Proof.
+  induction fuel as [|f IH]; intros avail r Hlen Hfit; [lia|].
+  rewrite submit_batches_S. destruct avail as [|a l]; [discriminate|].
+  destruct (is_full depth r); [discriminate|].
+  apply IH.
+  - assert (H : (length (mb_rest (make_batch p (a :: l))) < length (a :: l))%nat).
+    { apply make_batch_progress; [discriminate|exact Hfit]. }
+    lia.
+  - destruct (make_batch_rest p (a :: l)) as [pre [Ha _]]. intros j Hj. apply Hfit. rewrite Ha. apply in_app_iff. right. exact Hj.
+Qed.
+
+Lemma submit_groups_fuel depth ns : forall groups r,
+  (forall g, In g groups -> fits g (available g ns)) -> submit_groups depth groups ns r <> ROutOfFuel.
+Proof.
+  induction groups as [|g gs IH]; intros r Hfit; cbn [submit_groups]; [discriminate|].
+  assert (Hgs : forall g', In g' gs -> fits g' (available g' ns)) by (intros g' Hg'; apply Hfit; right; exact Hg').
+  destruct (is_full depth r); [apply IH; exact Hgs|].
+  destruct (submit_batches (S (length (available g ns))) depth g (available g ns) r) eqn:Es.
+  - apply IH; exact Hgs.
+  - exfalso. revert Es. apply submit_batches_fuel; [lia|apply Hfit; left; reflexivity].
+Qed.
+
+Theorem submit_round_fuel depth out0 index0 oks groups ns :
+  (forall g, In g groups -> fits g (available g ns)) ->
+  submit_round depth out0 index0 oks groups ns <> ROutOfFuel.
+Proof. intros H. unfold submit_round. apply submit_groups_fuel. exact H. Qed.
+
+(* ---------- dry run ---------- *)
+Definition set_dry (d : bool) (p : gparams) : gparams :=
+  {| g_name := g_name p; g_size := g_size p; g_time := g_time p; g_max := g_max p; g_try := g_try p; g_dry := d |}.
+Definition erase_oks (r : rstate) : rstate :=
+  {| r_out := r_out r; r_index := r_index r; r_oks := []; r_subs := r_subs r;
+     r_submitted := r_submitted r; r_blocked := r_blocked r |}.
+Definition map_rr (f : rstate -> rstate) (x : round_result) : round_result :=
+  match x with ROk r => ROk (f r) | ROutOfFuel => ROutOfFuel end.
+
+Lemma pass_dry d p n : forall l i s, pass (set_dry d p) n l i s = pass p n l i s.
+Proof.
+  induction l as [|j l IH]; intros i s; cbn [pass]; [reflexivity|].
+  rewrite !IH. reflexivity.
+Qed.
+Lemma passes_dry d p avail : forall n s, passes n (set_dry d p) avail s = passes n p avail s.
+Proof.
+  induction n as [|n IH]; intros s; cbn [passes]; [reflexivity|]. rewrite pass_dry.
+  destruct (pass p (length avail) avail 0 s) as [s' done]. destruct done; [reflexivity|apply IH].
+Qed.
+(* the batch built does not depend on the dry_run flag *)
+Theorem make_batch_dry d p avail : make_batch (set_dry d p) avail = make_batch p avail.
+Proof. unfold make_batch. cbn [g_try set_dry]. rewrite passes_dry. reflexivity. Qed.
+
+Lemma sb_step_dry p avail r : g_dry p = true ->
+  erase_oks (sb_step p avail r) = sb_step (set_dry false p) avail (erase_oks r) /\
+  r_oks (sb_step p avail r) = r_oks r.
+Proof.
+  intros Hd. unfold sb_step. rewrite make_batch_dry. destruct (mb_batch (make_batch p avail)) as [|b bs].
+  - split; reflexivity.
+  - unfold submit_batch. cbn [r_out r_index r_oks r_subs r_submitted r_blocked g_dry set_dry erase_oks g_name].
+    rewrite Hd. cbn [orb hd tl]. split; reflexivity.
+Qed.
+
+Lemma submit_batches_dry depth p : g_dry p = true -> forall fuel avail r,
+  map_rr erase_oks (submit_batches fuel depth p avail r) =
+  submit_batches fuel depth (set_dry false p) avail (erase_oks r) /\
+  (forall r', submit_batches fuel depth p avail r = ROk r' -> r_oks r' = r_oks r).
+Proof.
+  intros Hd. induction fuel as [|f IH]; intros avail r.
+  - cbn [submit_batches]. destruct avail as [|a l]; [split; [reflexivity|intros r' H; inversion H; reflexivity]|].
+    change (is_full depth (erase_oks r)) with (is_full depth r).
+    destruct (is_full depth r); split; try reflexivity; intros r' H; inversion H; reflexivity.
+  - rewrite !submit_batches_S. destruct avail as [|a l]; [split; [reflexivity|intros r' H; inversion H; reflexivity]|].
+    change (is_full depth (erase_oks r)) with (is_full depth r).
+    destruct (is_full depth r); [split; [reflexivity|intros r' H; inversion H; reflexivity]|].
+    rewrite make_batch_dry. destruct (sb_step_dry p (a :: l) r Hd) as [E1 E2]. rewrite <- E1.
+    destruct (IH (mb_rest (make_batch p (a :: l))) (sb_step p (a :: l) r)) as [I1 I2].
+    split; [exact I1|]. intros r' H. rewrite (I2 r' H). exact E2.
+Qed.
+
+Lemma available_dry d g ns : available (set_dry d g) ns = available g ns.
+Proof. reflexivity. Qed.
+
+Lemma submit_groups_dry depth ns : forall groups r,
+  Forall (fun g => g_dry g = true) groups ->
+  map_rr erase_oks (submit_groups depth groups ns r) =
+  submit_groups depth (map (set_dry false) groups) ns (erase_oks r) /\
+  (forall r', submit_groups depth groups ns r = ROk r' -> r_oks r' = r_oks r).
+Proof.
+  induction groups as [|g gs IH]; intros r Hall; cbn [submit_groups map].
+  - split; [reflexivity|intros r' H; inversion H; reflexivity].
+  - inversion Hall as [|? ? Hg Hgs]; subst.
+    change (is_full depth (erase_oks r)) with (is_full depth r).
+    destruct (is_full depth r); [apply IH; exact Hgs|].
+    rewrite available_dry.
+    destruct (submit_batches_dry depth g Hg (S (length (available g ns))) (available g ns) r) as [B1 B2].
+    rewrite <- B1.
+    destruct (submit_batches (S (length (available g ns))) depth g (available g ns) r) as [r1|] eqn:Es; cbn [map_rr].
+    + destruct (IH r1 Hgs) as [I1 I2]. split; [exact I1|]. intros r' H. rewrite (I2 r' H). apply B2. reflexivity.
+    + split; [reflexivity|discriminate].
+Qed.
+
+(* With dry_run set for every group: the batches (index, group, jobs, in order) are exactly those of the same
+   round without dry_run in which every sbatch succeeds; the sbatch oracle is not consumed (nothing is handed
+   to sbatch) and every batch counts as queued. *)
+Theorem dry_run_same_batches depth out0 index0 oks groups ns r :
+  Forall (fun g => g_dry g = true) groups ->
+  submit_round depth out0 index0 oks groups ns = ROk r ->
+  submit_round depth out0 index0 [] (map (set_dry false) groups) ns = ROk (erase_oks r) /\
+  r_oks r = oks.
+Proof.
+  intros Hall Hs. unfold submit_round in *. fold (r_init out0 index0 oks) in Hs.
+  destruct (submit_groups_dry depth ns groups (r_init out0 index0 oks) Hall) as [H1 H2].
+  split; [|exact (H2 r Hs)].
+  change {| r_out := out0; r_index := index0; r_oks := []; r_subs := []; r_submitted := []; r_blocked := [] |}
+    with (erase_oks (r_init out0 index0 oks)).
+  rewrite <- H1. fold (r_init out0 index0 oks). rewrite Hs. reflexivity.
+Qed.
+
+(* ---------- per-batch statements, unpacked ---------- *)
+Lemma map_inj_unique {A B} (f : A -> B) l x y : NoDup (map f l) -> In x l -> In y l -> f x = f y -> x = y.
+Proof.
+  induction l as [|a l IH]; intros Hnd Hx Hy He; [destruct Hx|].
+  cbn in Hnd. inversion Hnd as [|? ? Hna Hnd']; subst.
+  destruct Hx as [<-|Hx]; destruct Hy as [<-|Hy]; [reflexivity| | |auto].
+  - exfalso. apply Hna. rewrite He. apply in_map. exact Hy.
+  - exfalso. apply Hna. rewrite <- He. apply in_map. exact Hx.
+Qed.
+
+Theorem round_batch_group depth out0 index0 oks groups ns r s :
+  NoDup (names ns) -> NoDup (map g_name groups) ->
+  submit_round depth out0 index0 oks groups ns = ROk r -> In s (r_subs r) ->
+  exists g, In g groups /\ sb_group s = g_name g.
+Proof.
+  intros Hns Hg Hs Hin. pose proof (submit_round_batches _ _ _ _ _ _ _ Hns Hg Hs) as HF.
+  rewrite Forall_forall in HF. destruct (HF s Hin) as [g [H1 [H2 _]]]. exists g. split; assumption.
+Qed.
+
+Theorem round_batch_props depth out0 index0 oks groups ns r s g :
+  NoDup (names ns) -> NoDup (map g_name groups) ->
+  submit_round depth out0 index0 oks groups ns = ROk r -> In s (r_subs r) ->
+  In g groups -> sb_group s = g_name g ->
+  sb_jobs s <> [] /\ incl (sb_jobs s) (available g ns) /\ NoDup (names (sb_jobs s)) /\ limit_ok g (sb_jobs s) /\
+  closed (sb_jobs s) /\ blocked_only_if_try g (sb_jobs s) /\ (g_dry g = true -> sb_ok s = true).
+Proof.
+  intros Hns Hg Hs Hin Hgi Hgn. pose proof (submit_round_batches _ _ _ _ _ _ _ Hns Hg Hs) as HF.
+  rewrite Forall_forall in HF. destruct (HF s Hin) as [g' [H1 [H2 H3]]].
+  assert (g' = g) by (eapply (map_inj_unique g_name); eauto; congruence). subst g'. exact H3.
+Qed.
+
+Theorem round_batch_nonempty depth out0 index0 oks groups ns r s :
+  NoDup (names ns) -> NoDup (map g_name groups) ->
+  submit_round depth out0 index0 oks groups ns = ROk r -> In s (r_subs r) -> sb_jobs s <> [].
+Proof.
+  intros Hns Hg Hs Hin. destruct (round_batch_group _ _ _ _ _ _ _ _ Hns Hg Hs Hin) as [g [H1 H2]].
+  exact (proj1 (round_batch_props _ _ _ _ _ _ _ _ _ Hns Hg Hs Hin H1 H2)).
+Qed.
+
+Theorem round_batch_size depth out0 index0 oks groups ns r s g :
+  NoDup (names ns) -> NoDup (map g_name groups) ->
+  submit_round depth out0 index0 oks groups ns = ROk r -> In s (r_subs r) ->
+  In g groups -> sb_group s = g_name g -> g_time g = false ->
+  (1 <= N.of_nat (length (sb_jobs s)) <= N.max 1 (g_size g))%N /\
+  ((1 <= g_size g)%N -> (N.of_nat (length (sb_jobs s)) <= g_size g)%N).
+Proof.
+  intros Hns Hg Hs Hin Hgi Hgn Ht.
+  destruct (round_batch_props _ _ _ _ _ _ _ _ _ Hns Hg Hs Hin Hgi Hgn) as [_ [_ [_ [Hl _]]]].
+  unfold limit_ok in Hl. rewrite Ht in Hl. split; [exact Hl|lia].
+Qed.
+
+Theorem round_batch_time depth out0 index0 oks groups ns r s g :
+  NoDup (names ns) -> NoDup (map g_name groups) ->
+  submit_round depth out0 index0 oks groups ns = ROk r -> In s (r_subs r) ->
+  In g groups -> sb_group s = g_name g -> g_time g = true ->
+  60 * sum_est (sb_jobs s) <= g_max g.
+Proof.
+  intros Hns Hg Hs Hin Hgi Hgn Ht.
+  destruct (round_batch_props _ _ _ _ _ _ _ _ _ Hns Hg Hs Hin Hgi Hgn) as [_ [_ [_ [Hl _]]]].
+  unfold limit_ok in Hl. rewrite Ht in Hl. exact Hl.
+Qed.
+
+Theorem round_batch_single_group depth out0 index0 oks groups ns r s :
+  NoDup (names ns) -> NoDup (map g_name groups) ->
+  submit_round depth out0 index0 oks groups ns = ROk r -> In s (r_subs r) ->
+  (exists g, In g groups /\ sb_group s = g_name g) /\
+  forall x, In x (sb_jobs s) -> In x ns /\ jgroup x = sb_group s.
+Proof.
+  intros Hns Hg Hs Hin. destruct (round_batch_group _ _ _ _ _ _ _ _ Hns Hg Hs Hin) as [g [H1 H2]].
+  split; [exists g; split; assumption|].
+  destruct (round_batch_props _ _ _ _ _ _ _ _ _ Hns Hg Hs Hin H1 H2) as [_ [Hi _]].
+  intros x Hx. rewrite H2. apply available_spec. auto.
+Qed.
+
+Theorem round_batch_nodup depth out0 index0 oks groups ns r s :
+  NoDup (names ns) -> NoDup (map g_name groups) ->
+  submit_round depth out0 index0 oks groups ns = ROk r -> In s (r_subs r) -> NoDup (names (sb_jobs s)).
+Proof.
+  intros Hns Hg Hs Hin. destruct (round_batch_group _ _ _ _ _ _ _ _ Hns Hg Hs Hin) as [g [H1 H2]].
+  exact (proj1 (proj2 (proj2 (round_batch_props _ _ _ _ _ _ _ _ _ Hns Hg Hs Hin H1 H2)))).
+Qed.
+
+Theorem round_batch_blockers depth out0 index0 oks groups ns r s g :
+  NoDup (names ns) -> NoDup (map g_name groups) ->
+  submit_round depth out0 index0 oks groups ns = ROk r -> In s (r_subs r) ->
+  In g groups -> sb_group s = g_name g ->
+  forall x, In x (sb_jobs s) -> jblocked x <> [] ->
+            g_try g = true /\ forall d, In d (jblocked x) -> In d (names (sb_jobs s)).
+Proof.
+  intros Hns Hg Hs Hin Hgi Hgn x Hx Hb.
+  destruct (round_batch_props _ _ _ _ _ _ _ _ _ Hns Hg Hs Hin Hgi Hgn) as [_ [_ [_ [_ [Hc [Ht _]]]]]].
+  split; [exact (Ht x Hx Hb)|exact (Hc x Hx)].
+Qed.
+
+(* two different batches of one round (same or different groups) share no job *)
+Theorem round_batches_pairwise_disjoint depth out0 index0 oks groups ns r l1 s1 l2 s2 l3 :
+  NoDup (names ns) -> NoDup (map g_name groups) ->
+  submit_round depth out0 index0 oks groups ns = ROk r ->
+  r_subs r = (l1 ++ s1 :: l2 ++ s2 :: l3)%list ->
+  forall x, In x (names (sb_jobs s1)) -> ~ In x (names (sb_jobs s2)).
+Proof.
+  intros Hns Hg Hs Hsplit x H1 H2.
+  destruct (submit_round_disjoint _ _ _ _ _ _ _ Hns Hg Hs) as [Hnd _].
+  rewrite Hsplit in Hnd. rewrite subs_jobs_app, names_app in Hnd. apply NoDup_app_iff in Hnd. destruct Hnd as [_ [Hnd _]].
+  change (s1 :: l2 ++ s2 :: l3)%list with ([s1] ++ l2 ++ s2 :: l3)%list in Hnd.
+  rewrite subs_jobs_app, names_app in Hnd. apply NoDup_app_iff in Hnd. destruct Hnd as [_ [_ Hd]].
+  apply (Hd x).
+  - unfold subs_jobs. cbn. rewrite app_nil_r. exact H1.
+  - rewrite subs_jobs_app, names_app. apply in_app_iff. right.
+    change (s2 :: l3)%list with ([s2] ++ l3)%list. rewrite subs_jobs_app, names_app. apply in_app_iff. left.
+    unfold subs_jobs. cbn. rewrite app_nil_r. exact H2.
+Qed.
+
+(* dry run: every batch of the round counts as queued and the sbatch oracle is untouched *)
+Theorem dry_run_no_sbatch depth out0 index0 oks groups ns r :
+  NoDup (names ns) -> NoDup (map g_name groups) -> Forall (fun g => g_dry g = true) groups ->
+  submit_round depth out0 index0 oks groups ns = ROk r ->
+  r_oks r = oks /\ forall s, In s (r_subs r) -> sb_ok s = true.
+Proof.
+  intros Hns Hg Hall Hs. split; [exact (proj2 (dry_run_same_batches _ _ _ _ _ _ _ Hall Hs))|].
+  intros s Hin. destruct (round_batch_group _ _ _ _ _ _ _ _ Hns Hg Hs Hin) as [g [H1 H2]].
+  destruct (round_batch_props _ _ _ _ _ _ _ _ _ Hns Hg Hs Hin H1 H2) as [_ [_ [_ [_ [_ [_ Hd]]]]]].
+  apply Hd. rewrite Forall_forall in Hall. auto.
 Qed.
